@@ -347,6 +347,9 @@ func (g *Gen) freshRef(h Heap, hint string) (string, Heap) {
 	g.S.declare(r, "Ref")
 	al := g.hget(h, g.allocComp())
 	g.S.assert(and(not(sel(al, r)), not(eq(r, "null"))))
+	// an allocated object is a root object, never the address of a field embedded in another object
+	g.S.declareFun("sub.kind", []string{"Ref"}, "Int")
+	g.S.assert(eq(sx("sub.kind", r), "0"))
 	// allocation is monotone: an object that is new now was not allocated at function entry either
 	if init := g.initSym(g.allocComp()); init != al {
 		g.S.assert(not(sel(init, r)))
